@@ -4,6 +4,7 @@ import (
 	"fmt"
 	"go/token"
 	"os"
+	"sort"
 	"strings"
 
 	"golang.org/x/tools/go/ssa"
@@ -212,13 +213,43 @@ func c19ScopeMarks(c *Ctx) {
 				if !ok || !isCtyValue(mu.Value.Type()) || !isVars(mu.Map) {
 					continue
 				}
-				n++
-				c.Sites++
-				c.Fn(FuncName(fn))
-				stripped, remarked := strippedElementOf(mu.Value)
-				key := fmt.Sprintf("%s:bind[%s]<-%s", FuncName(fn), pathName(mu.Key), pathName(mu.Value))
-				c.Check(stripped == nil || remarked, "scope.marks", key, mu.Pos(), "not an element of a stripped collection, or re-marked",
-					"an element of a collection whose marks were stripped by Unmark() is bound in a child scope without them: a diagnostic of a sub-expression evaluated in that scope carries the scope, and the text writer prints the variable's content (`with v as \"…\"`)")
+				// the value bound: the stored value itself, or — when a helper or closure does the
+				// binding for its callers — what each caller hands it
+				type bound struct {
+					v     ssa.Value
+					owner *ssa.Function
+					pos   token.Pos
+				}
+				bounds := []bound{{mu.Value, fn, mu.Pos()}}
+				if par, ok := mu.Value.(*ssa.Parameter); ok && staticCallersOnly(c.P, fn) {
+					idx := -1
+					for i, q := range fn.Params {
+						if q == par {
+							idx = i
+						}
+					}
+					bounds = nil
+					for _, in := range c.P.CallGraph().Nodes[fn].In {
+						args := in.Site.Common().Args
+						if idx >= 0 && idx < len(args) {
+							bounds = append(bounds, bound{args[idx], in.Site.Parent(), in.Site.Pos()})
+						}
+					}
+					sort.Slice(bounds, func(i, j int) bool { return bounds[i].pos < bounds[j].pos })
+				}
+				for _, bd := range bounds {
+					n++
+					c.Sites++
+					owner := bd.owner
+					for owner.Parent() != nil {
+						owner = owner.Parent()
+					}
+					c.Fn(FuncName(owner))
+					stripped, remarked := strippedElementOf(bd.v)
+					key := fmt.Sprintf("%s:bind[%s]<-%s", FuncName(owner), pathName(mu.Key), pathName(bd.v))
+					c.Check(stripped == nil || remarked, "scope.marks", key, bd.pos, "not an element of a stripped collection, or re-marked",
+						"an element of a collection whose marks were stripped by Unmark() is bound in a child scope without them: a diagnostic of a sub-expression evaluated in that scope carries the scope, and the text writer prints the variable's content (`with v as \"…\"`)")
+				}
 			}
 		}
 	}
